@@ -432,6 +432,78 @@ def run_queries(chk: Check, prog: Program) -> None:
                         where=mm.where)
 
 
+def run_repeated(chk: Check, prog: Program) -> None:
+    """A traversal leaves nothing behind: on every concrete shape with up to four nodes, a traversal that the visitor stops
+    at its k-th callback is followed by a full traversal of the same tree (each of the three orders), which must make the
+    callbacks of a fresh tree - the same nodes in the defining order."""
+    from .c18 import shapes, shape_str
+    chk.rule("C14.R6", "a full traversal after a stopped one visits every node in the defining order (all shapes with up to 4 "
+             "nodes, every stop position, every pair of orders)", minimum=100)
+    node_cls = prog.cls("BinaryTreeNode")
+
+    def expected(sh, order, path=""):
+        if sh is None:
+            return []
+        out = []
+        for step in ORDERS[order]:
+            if step == "visit":
+                out.append(path or "root")
+            elif step == "left":
+                out += expected(sh[0], order, path + "L")
+            else:
+                out += expected(sh[1], order, path + "R")
+        return out
+    for n in (1, 2, 3, 4):
+        for sh in shapes(n):
+            for first in ORDERS:
+                for second in ORDERS:
+                    for k in range(n):
+                        def body(it: Interp, sh=sh, first=first, second=second, k=k):
+                            names = {}
+
+                            def build(s_, path):
+                                if s_ is None:
+                                    return None
+                                l, r = build(s_[0], path + "L"), build(s_[1], path + "R")
+                                nd = it.instantiate(node_cls, [l, r], {})
+                                names[nd.cid] = path or "root"
+                                return nd
+                            root = build(sh, "")
+                            fn = Opaque("visit_fn", truthy=True)
+                            log = []
+                            state = {"stop_at": k, "calls": 0}
+
+                            def opaque_call(it2, f, args, kwargs):
+                                if f is not fn:
+                                    raise Unsupported("call of unknown opaque")
+                                nd = args[0]
+                                log.append(names.get(nd.cid, "?") if isinstance(nd, Node) else "?")
+                                state["calls"] += 1
+                                if state["stop_at"] is not None and state["calls"] - 1 == state["stop_at"]:
+                                    return "stop"
+                                return None
+                            it.hooks["opaque-call"] = opaque_call
+                            it.call_function(prog.func("tree", f"BinaryTreeNode.{first}"), [root, fn], {})
+                            del log[:]
+                            state["stop_at"], state["calls"] = None, 0
+                            it.call_function(prog.func("tree", f"BinaryTreeNode.{second}"), [root, fn], {})
+                            return list(log)
+                        label = f"{second} after a {first} stopped at callback {k} on {shape_str(sh)}"
+                        where = f"mathy_core/tree.py:BinaryTreeNode.{second}"
+                        for p in explore(prog, body, {"max_updepth": 0, "max_steps": 40000}, max_paths=8):
+                            if p.outcome != "return":
+                                if p.outcome == "raise":
+                                    chk.fail("C14.R6", f"C14.R6:{second}:raises", label, f"raises {p.exc}", witness={"shape": shape_str(sh)},
+                                             where=where)
+                                else:
+                                    chk.undecided("C14.R6", f"C14.R6:{second}:{p.outcome}", label, str(p.note), where)
+                                continue
+                            want = expected(sh, second)
+                            chk.verdict(p.value == want, "C14.R6", f"C14.R6:{second}:after-stopped-{first}", label,
+                                        f"callbacks {p.value}, a fresh tree gives {want}",
+                                        witness={"shape": shape_str(sh), "stopped_at": k, "got": p.value, "want": want}, where=where)
+
+
 def run(chk: Check) -> None:
     prog = program(chk)
     chk.technique = "abstract interpretation with inductive summaries of the recursive calls; event-trace refinement " \
@@ -451,5 +523,6 @@ def run(chk: Check) -> None:
     chk.assumptions = ["links of the input tree are consistent", "induction hypothesis for recursive calls on proper subtrees"]
     run_traversals(chk, prog)
     run_queries(chk, prog)
+    run_repeated(chk, prog)
     chk.exhaustive = True
     chk.max_undecided = 0
